@@ -94,6 +94,33 @@ def check(ctx):
     ctx.cov["suites"]["S-connp"]["mismatches"] = len(mm)
     ctx.cov["suites"]["S-connp"]["oracle_failures"] = len(failing)
     if mm and not failing:
+        # the correspondence broke and no generated history exceeded a limit: search for one. Cut each disagreeing history after the first call
+        # whose observation differs and keep feeding that direction with unterminated filler (the way a limit would be exceeded if it no longer held)
+        ext = []
+        for i in mm[:8]:
+            a, b = pi[i].split("|"), pm[i].split("|")
+            k = next((j for j in range(min(len(a), len(b))) if a[j] != b[j]), None)
+            if k is None:
+                continue
+            f = cases[i].split("\t")
+            ops = f[3].split(",")
+            d = ops[k][0] if ops[k][0] in "QS" else "S"
+            hard = int(dict(x.split("=") for x in f[1].split(","))["hard"])
+            for unit in (1, 7, hard):
+                ext.append("\t".join(f[:3] + [",".join(ops[:k + 1] + [d + (b"x" * unit).hex()] * (2 * hard // unit + 4))]))
+        if ext:
+            eo, _ = sconnp.run_impl(ctx, ext, tag="extend")
+            ev = sconnp.run_oracles(ctx, ext[:len(eo)], eo) if eo else []
+            bad = [j for j, v in enumerate(ev) if v is not None and not v.get("C10", True)]
+            ctx.cov["suites"]["S-connp"]["extension_search_cases"] = len(ext)
+            for j in bad[:1]:
+                c = cp.shrink_ops_case(ctx, ext[j], cp.oracle_fails(ctx, "C10"))
+                out, _ = sconnp.run_impl(ctx, [c], tag="shrunk")
+                failing.append(-1)
+                vf.violation(ctx, "oracle-ext-%d" % j, {"kind": "limit-exceeded-by-implementation", "suite": "S-connp", "case": c, "implementation": sconnp.project(out[0], PROP)[-3000:] if out else "",
+                                                        "found_by": "extension search from a history on which library and model disagree",
+                                                        "oracle": "Spec/SConnp.v chk_C10 (extracted): in_buf_size, out_buf_size <= hard; #tx <= max_tx + 1", "theorem": "Properties_C10.v"})
+    if mm and not failing:
         i = mm[0]
         vf.violation(ctx, "corr-%d" % i, {"kind": "correspondence-broken", "suite": "S-connp", "case": cases[i], "projection": "rc, #tx, in_buf_size, |in_header|, out_buf_size, |out_header| after every call",
                                           "implementation": pi[i][-3000:], "model": pm[i][-3000:], "theorem": "Properties_C10.v",
